@@ -40,6 +40,13 @@ class W:
         return f"<W {self.name}>"
 
 
+class WFalsy(W):
+    """alive but falsy (an empty container used as weak argument, e.g. an empty list walker)"""
+
+    def __len__(self):
+        return 0
+
+
 BEHAVIOURS = [
     "plain",
     "true",
@@ -86,7 +93,7 @@ class State:
     def __init__(self, cap):
         self.cap = cap
         self.senders = {"S1": Sender1(), "S2": Sender2()}
-        self.weak = {"w1": W("w1"), "w2": W("w2")}
+        self.weak = {"w1": W("w1"), "w2": WFalsy("w2")}
         self.conns: dict = {("S1", "a"): [], ("S1", "b"): [], ("S2", "a"): []}
         self.frames: list[Frame] = []
         self.next_cid = 0
@@ -475,7 +482,7 @@ class Spec:
 
 
 def run(tier, R):
-    cap, depth = (3, 4) if tier == "quick" else (4, 5)
+    cap, depth = (3, 5) if tier == "quick" else (4, 5)
     spec = Spec(cap)
     res = R.bfs(spec, depth=depth, max_states=None)
     cov = {
